@@ -58,6 +58,19 @@ fn responder() -> vcommon::rawhttp::Responder {
             wire = head.into_bytes();
             wire.extend_from_slice(&body);
         }
+        // cut=<n>: the host dies after the first n bytes of its answer (n counted from the end of the head when
+        // prefixed with 'h', from the end of the message when prefixed with 'e')
+        if let Some(c) = qparam(&t, "cut") {
+            let head_len = wire.windows(4).position(|x| x == b"\r\n\r\n").map(|i| i + 4).unwrap_or(0);
+            let n = if let Some(r) = c.strip_prefix('h') {
+                head_len + r.parse::<usize>().unwrap_or(0)
+            } else if let Some(r) = c.strip_prefix('e') {
+                wire.len() - r.parse::<usize>().unwrap_or(1).min(wire.len())
+            } else {
+                c.parse::<usize>().unwrap_or(0)
+            };
+            return Action::ReplyClose(vec![wire[..n.min(wire.len() - 1)].to_vec()]);
+        }
         // write in segments with boundaries at multiples of `seg` bytes of the wire image
         let segs: Vec<Vec<u8>> = if seg == 0 || wire.len() <= seg { vec![wire] } else { vec![wire[..seg].to_vec(), wire[seg..].to_vec()] };
         Action::Reply(segs)
@@ -96,6 +109,10 @@ fn header_sets() -> Vec<Vec<(&'static str, &'static [u8])>> {
         vec![("X-One", b"1"), ("x-one", b"2"), ("X-ONE", b"3")],
         vec![("X-MiXeD-CaSe", b"Some Value"), ("Accept", b"*/*"), ("X-Empty", b"")],
         vec![("User-Agent", b"vt/1.0 (a; b)"), ("X-Punct", b"a=b; c=\"d\", e"), ("Cookie", b"k=v; k2=v2")],
+        // names that merely resemble the three proxy-owned ones, and the platform's own request headers
+        vec![("x-ms-azure-host-name", b"my-vm"), ("X-Ms-Azure-Host-Claims-Extra", b"x"), ("x-ms-azure-hostx", b"1"), ("x-ms-azure-host", b"h"), ("x-ms-version", b"2012-11-30"), ("x-ms-agent-name", b"WALinuxAgent"), ("Metadata", b"true")],
+        // well-known request header names (one that a relay special-cases by name must show up)
+        vec![("Accept-Encoding", b"gzip"), ("Cache-Control", b"no-cache"), ("Pragma", b"no-cache"), ("Origin", b"http://x"), ("Referer", b"http://x/y"), ("Authorization", b"Bearer abc.def"), ("If-None-Match", b"\"e1\""), ("Range", b"bytes=0-9"), ("Via", b"1.1 v"), ("X-Forwarded-For", b"10.0.0.1"), ("Forwarded", b"for=10.0.0.1"), ("Content-Type", b"text/plain; charset=utf-8"), ("Content-Language", b"en"), ("Accept-Language", b"en-US,en;q=0.5")],
     ]
 }
 
@@ -384,9 +401,48 @@ fn main() {
                 }
             }
         }
+        // family 4: the host dies part-way through its answer: whatever the client gets, it is not a complete
+        // message with the host's status (the full body never existed, so none can have been relayed unchanged)
+        w.set_key(Some(K1));
+        let mut aborted_n = 0u64;
+        for fr in ["ch", "cl"] {
+            for len in [5usize, 20000] {
+                for cut in ["10", "h0", "h1", "h3", "h4000", "h8197", "e8", "e5", "e3", "e1"] {
+                    for seg in [0usize, 4096] {
+                        for method in ["GET", "POST"] {
+                            if seg == 4096 && (len == 5 || method == "POST") {
+                                continue;
+                            }
+                            id += 1;
+                            aborted_n += 1;
+                            sport = if sport >= 39000 { 36000 } else { sport + 1 };
+                            let target = format!("/abort?id={id}&st=200&len={len}&fr={fr}&seg={seg}&cut={cut}");
+                            let raw = build_request(method, &target, &[("Host", b"h")], if method == "POST" { Some(b"req-body") } else { None }, None);
+                            let resp = match w.connect(Some(sport), Some(&rec)) {
+                                Ok(mut c) => {
+                                    let r = c.send(&raw).map_err(|e| e.to_string()).and_then(|_| c.read_response(false, Duration::from_secs(4)));
+                                    c.close();
+                                    r
+                                }
+                                Err(e) => Err(format!("connect: {e}")),
+                            };
+                            evals += 1;
+                            let case = json!({"family": "host-dies-mid-answer", "method": method, "framing": fr, "body": len, "cut": cut, "segment": seg});
+                            nontrivial.insert(case.to_string());
+                            if let Ok(r) = &resp {
+                                if r.status() == 200 {
+                                    res.violation("response:truncated-answer-presented-as-complete", &format!("the host sent {cut} (h = after the head, e = before the end) of a {len}-byte {fr} answer and died; the client received a complete 200 message with a {}-byte body", r.body.len()), case);
+                                }
+                            }
+                        }
+                    }
+                }
+            }
+        }
+        res.cov("host_dies_mid_answer_requests", aborted_n);
         res.cov("exempt_upload_requests", exempt_n);
         res.cov("pipelines", pipelines);
-        res.cov("rule", format!("one request per fresh attributed connection for the product of 5 methods x {} client header sets (repeated names in three spellings, empty value, punctuation) x {} request body framings (0..102400 bytes, content-length / chunks of 1, 7, 4096 / single chunk) x {} host answers (status 200/204/404/500, body 0/1/70000 bytes covering all byte values, content-length or chunked, TCP segment boundary at 0/1/2/4095/4096/4097), with a key latched and (slice) without; plus {} pipelines of 1-3 back-to-back requests on 1 and 2 concurrent keep-alive connections; plus the two signature-exempt uploads with 9 body framings (0 bytes .. 1 MiB, content-length and chunked) x 2 header sets; the host's answer is a function of the request target and echoes the request id", hsets, req_bodies.len(), resps.len(), pipelines));
+        res.cov("rule", format!("one request per fresh attributed connection for the product of 5 methods x {} client header sets (repeated names in three spellings, empty value, punctuation, names resembling the proxy-owned ones, 14 well-known request headers) x {} request body framings (0..102400 bytes, content-length / chunks of 1, 7, 4096 / single chunk) x {} host answers (status 200/204/404/500, body 0/1/70000 bytes covering all byte values, content-length or chunked, TCP segment boundary at 0/1/2/4095/4096/4097), with a key latched and (slice) without; plus {} pipelines of 1-3 back-to-back requests on 1 and 2 concurrent keep-alive connections; plus answers cut off by the death of the host at 10 offsets (inside the head, 0/1/3/4000/8197 bytes into the body, 8/5/3/1 bytes before the end) x content-length/chunked x 2 sizes, which must not reach the client as a complete message; plus the two signature-exempt uploads with 9 body framings (0 bytes .. 1 MiB, content-length and chunked) x 2 header sets; the host's answer is a function of the request target and echoes the request id", hsets, req_bodies.len(), resps.len(), pipelines));
     } else {
         // ---------------- C15 ----------------
         w.set_key(Some(K1));
